@@ -11,6 +11,8 @@ stream until end_of_file (capped).  Texts:
            `0'` forms, NUL / control / odd Unicode characters, digit separators, `1.e5`, `..`, `. .`)
            spliced in at a token boundary, or character edits (delete / insert / replace / duplicate / swap).
 * `tail`:  the mutated clause is the last thing in the file (errors at end of input, `0'` at EOF).
+* `qerr`:  a quoted atom / string / back-quoted string with an illegal escape or character AND text that
+           looks like an end token, doubled quotes, escaped quotes inside it, then valid clauses.
 * `soup`:  random token soup, then valid clauses.
 * `valid`: only valid clauses, with layout / comments after the last one.
 * `stress`: very long tokens and deep nesting (10^4..10^5); judged by outcome class only.
@@ -296,6 +298,16 @@ def soup(rng):
     return "".join(parts)
 
 
+def broken_quoted(rng):
+    """a quoted item with at least one illegal piece and text that looks like an end token inside it"""
+    q = rng.choice(["'", "'", "\"", "`"])
+    good = ["a", "b c", ". ", ".", " .\t", "%", "/*", q + q, "\\" + q, "\\\\", "\\n", "\\x41\\", "\\101\\", "\\\n", "0'", "1.5", "(", "[", "\u00e9"]
+    good += [x for x in ["'", "\"", "`"] if x != q]
+    bad = ["\\q", "\\x41", "\\x", "\\xG", "\\x110000\\", "\\xD800\\", "\\8", "\\ ", "\\400000000000\\", "\x01", "\t", "\x7f", "\x00", "\\e", "\\z. "]
+    parts = [rng.choice(good) for _ in range(rng.randint(0, 3))] + [rng.choice(bad)] + [rng.choice(good + bad[:6]) for _ in range(rng.randint(0, 4))]
+    return q + "".join(parts) + q
+
+
 def gen_text(rng, family):
     pre = [valid_clause(rng)[0] + rng.choice(ENDS) for _ in range(rng.choice([0, 0, 1, 2]))]
     post = [valid_clause(rng)[0] + rng.choice(ENDS) for _ in range(rng.randint(1, 3))]
@@ -303,6 +315,10 @@ def gen_text(rng, family):
         cl = [valid_clause(rng)[0] + rng.choice(ENDS) for _ in range(rng.randint(1, 4))]
         tail = rng.choice(["", "", " ", "\n\n", "% c", "% c\n", "/* c */", " /* c */ \n", "\t\n % x\n"])
         return "".join(cl) + tail, "valid"
+    if family == "qerr":
+        lead = rng.choice(["", "x = ", "f(", "[a, ", "- "])
+        trail = rng.choice(["", " y", ")", "]", " = z"])
+        return "".join(pre) + lead + broken_quoted(rng) + trail + rng.choice([".", " ."]) + rng.choice(ENDS) + "".join(post), "qerr"
     if family == "soup":
         return "".join(pre) + soup(rng) + rng.choice([".", " .", "."]) + rng.choice(ENDS) + "".join(post), "soup"
     ct, toks = valid_clause(rng, plain=rng.random() < 0.5)
@@ -433,6 +449,24 @@ class Runner:
                     off += ln
                     lines.append("Q\ts%d_%d\t1\t%s" % (k, j, q_read(self.write("s%d_%d.pl" % (k, j), seg), 3, False)))
             cases.append({"id": "k%d" % k, "impl": lines})
+        # the model's own compositionality on this text: every slice read alone = that one outcome
+        slines = []
+        for i, it in enumerate(items):
+            mo = res[i]["model"]
+            if mo and not it.get("shallow", False):
+                off = 0
+                for j, (_, _, ln) in enumerate(mo):
+                    seg = it["text"][off:off + ln]
+                    off += ln
+                    slines.append("reads\tms%d_%d\t%s\t%s" % (base + i, j, uc_arg(self.tbl, seg), enc(seg)))
+        smodel = core.run_model(slines) if slines else {}
+        for i, it in enumerate(items):
+            mo = res[i]["model"]
+            res[i]["model_segs_ok"] = True
+            if mo and not it.get("shallow", False):
+                for j, (c, kk, ln) in enumerate(mo):
+                    if smodel.get("ms%d_%d" % (base + i, j)) != "%s%s:%d" % (c, kk, ln):
+                        res[i]["model_segs_ok"] = "slice %d alone: %s, in the text: %s%s:%d" % (j, smodel.get("ms%d_%d" % (base + i, j)), c, kk, ln)
         impl, _ = diff.run_cases(cases, impl_env=env)
         # retry cases whose only problem is a timeout (load), sequentially
         flaky = [c for c in cases if any(str(impl.get(l.split("\t")[1], "missing")).startswith(("timeout", "missing")) for l in c["impl"])]
@@ -468,6 +502,8 @@ def judge(it, rec):
     mo = rec["model"]
     if mo is None:
         return False, "model-failed", "model driver answered %r" % rec["model_raw"]
+    if rec.get("model_segs_ok", True) is not True:
+        return False, "model-not-compositional", str(rec["model_segs_ok"])
     if whole.startswith(BAD_PREFIX):
         cls = "crash:" + whole.split("(")[0]
         return False, cls, "reading the text ended in %s" % whole[:200]
@@ -582,8 +618,8 @@ def run(ctx):
         else:
             for c0 in diff.load_corpus("C17"):
                 items.append({"text": "".join(chr(c) for c in c0["cps"]), "shallow": c0.get("shallow", False), "what": c0.get("what", "corpus"), "family": "corpus"})
-            n = int(os.environ.get("C17_N", "1500" if tier == "quick" else "40000"))
-            fams = [("mut", 0.55), ("tail", 0.15), ("soup", 0.15), ("valid", 0.15)]
+            n = int(os.environ.get("C17_N", "1000" if tier == "quick" else "30000"))
+            fams = [("mut", 0.47), ("qerr", 0.12), ("tail", 0.14), ("soup", 0.14), ("valid", 0.13)]
             for _ in range(n):
                 x = rng.random()
                 acc = 0.0
@@ -638,7 +674,7 @@ def run(ctx):
                         small = shrink(runner, it, cls)
                     except Exception as e:     # shrinking must never hide a finding
                         core.log("[C17] shrink failed: %r" % e)
-                kind = "disagreement" if cls in ("model-failed", "other", "unparsable-result") else "violation"
+                kind = "disagreement" if cls in ("model-failed", "model-not-compositional", "other", "unparsable-result") else "violation"
                 case = {"cps": [ord(c) for c in small], "shallow": it.get("shallow", False), "what": it.get("what", ""), "family": it["family"],
                         "original_cps": [ord(c) for c in text] if len(text) <= 2000 else None}
                 findings.append(core.Finding(kind, {"defect": cls, "text": repr(small)[:120]},
